@@ -244,7 +244,10 @@ structure WellFormed (mag : Nat) (text : Tx → List Nat) (txs : List Tx) : Prop
     ∃ off, off + 3 ≤ 24 ∧ ∀ t' ∈ txs, ∀ i, i < 24 → (i < off ∨ off + 3 ≤ i) →
       (text t).getD i 0 = (text t').getD i 0 ∧ ¬ (0x30 ≤ (text t).getD i 0 &&& 0x7F ∧ (text t).getD i 0 &&& 0x7F ≤ 0x39)
 
-/-- OPEN (not proved here; the network oracle of checks/C02.py judges it on the real code, also for several
+/-- (Round 5: SUPERSEDED by `C02Chain.page_roundtrip_chain` (receiver side) and `C02Sender.page_roundtrip_sender` (sender side with a
+concrete encoder).  This round-1 wording stays an unproved def: `WellFormed.header_ok` does not say that the digits at `off` are the
+page number, so as worded it does not follow.)
+OPEN (not proved here; the network oracle of checks/C02.py judges it on the real code, also for several
 magazines, serial mode, updates and subpages).  `page_roundtrip`, single-magazine parallel-mode instance:
 feed a fresh decoder a well-formed stream `txs ++ [last]` and one more header of another page; then the cache
 holds `last` under its page/subpage number with every transmitted row exactly as sent - so by
